@@ -148,6 +148,8 @@ func (h *Sources) Redo() {
 	line.pos--
 
 	if line.pos < 1 {
+		// Nothing (more) to redo: never go below the most recent state.
+		line.pos = 0
 		return
 	}
 
